@@ -12,8 +12,8 @@ from envlib import Adapter, Config, diff_json, tree_index
 class A(Adapter):
     name = "snake"
     lean = "snake"
-    serves = {"C04", "C05", "C07", "C08", "C09", "C10", "C11", "C12"}
-    ops = ("state", "step", "judge", "instance")
+    serves = {"C01", "C04", "C05", "C07", "C08", "C09", "C10", "C11", "C12"}
+    ops = ("state", "step", "judge", "instance", "bounds")
     terminate_on_invalid = True
     max_steps = 60
     episode_cap = 450
